@@ -3379,3 +3379,29 @@ pub mod verif_hooks_httppages {
         super::extract_msg_indices(trace, gate_id)
     }
 }
+
+#[cfg(feature = "verif-hooks")]
+pub mod verif_hooks_reconfunits {
+    //! Verification hooks (add-only, area ReconfUnits): a `Component` whose
+    //! HTTP resources collection is one the harness holds, so that the
+    //! endpoints a unit registers can be asked through the real handler.
+    use super::*;
+
+    pub fn component_with_http(
+        name: &str,
+        type_name: &'static str,
+        ingresses: Arc<ingress::Register>,
+        http_resources: http::Resources,
+    ) -> Component {
+        Component {
+            name: name.into(),
+            type_name,
+            http_client: None,
+            metrics: None,
+            http_resources,
+            roto_compiled: None,
+            tracer: Default::default(),
+            ingresses,
+        }
+    }
+}
